@@ -2,10 +2,14 @@
    Property theorems only.  Model/CMaps.v mirrors cmapdb.CMap.decode / IdentityCMap / IdentityCMapByte,
    CMapParser's bfchar / bfrange / cidchar / cidrange sections with FileUnicodeMap.add_cid2unichr,
    pdffont.get_widths / get_widths2 and PDFCIDFont's width and displacement lookup.
-   Not modelled in Coq (checked by the harness against platform codecs and a table writer only): the
-   contents of the pickled predefined CMaps and TrueTypeFont.create_unicode_map. *)
+   Model/TrueType.v mirrors pdffont.TrueTypeFont: the table directory, the cmap header and subtable records, the
+   platform filter, subtable formats 0, 2 and 4, unknown formats, reads past the end, and the inversion into
+   cid2unichr (tied by differential runs on generated font programs, whole and truncated).
+   Not modelled in Coq (checked by the harness against platform codecs only): the contents of the pickled
+   predefined CMaps. *)
 From Coq Require Import ZArith QArith List Bool.
 From PdfV Require Import Gen.FontTables Model.Fonts Model.Labels Model.CMaps Proofs.LabelsProofs Proofs.FontProofs Proofs.CMapProofs.
+From PdfV Require Import Model.TrueType Proofs.TrueTypeProofs.
 Import ListNotations.
 Open Scope Z_scope.
 
@@ -65,6 +69,46 @@ Theorem C07_vertical_w2 : forall c w vx vy dw2 wd dw,
   cid_width f c = w /\ cid_disp f c = (Some vx, vy).
 Proof. exact vertical_w2_run. Qed.
 
+(* ---- embedded TrueType cmap (Model/TrueType.v) ---------------------------------------------------------------- *)
+(* a format-4 segment without idRangeOffset gives exactly the characters sc..ec the glyph (c + idDelta) mod 65536
+   and leaves every other character as it was *)
+Theorem C07_ttf_delta_segment : forall sc ec idd d c,
+  dget (seg_delta sc ec idd d) c = if covers sc ec c then Some ((c + idd) mod 65536) else dget d c.
+Proof. exact seg_delta_get. Qed.
+
+(* a segment with idRangeOffset gives the k-th character the k-th entry of its glyph array, plus idDelta modulo
+   65536 unless the entry is 0 (missing glyph) *)
+Theorem C07_ttf_range_segment : forall idd gl sc d c,
+  dget (seg_glyphs (zseq sc (length gl)) gl idd d) c =
+  if (sc <=? c) && (c <? sc + Z.of_nat (length gl))
+  then Some (glyph_of (nth (Z.to_nat (c - sc)) gl 0) idd) else dget d c.
+Proof. exact seg_glyphs_get. Qed.
+
+(* the whole segment loop of a format-4 subtable, for ANY four arrays and any bytes: if it completes, the segments
+   it saw are segs_of (those with a range offset with the glyph array found at pos + 2i + idRangeOffset), and every
+   character has the glyph of the LAST segment covering it, or what it had before when none does *)
+Theorem C07_ttf_format4 : forall f pos ecs scs idds idrs d d' c,
+  fmt4_segs f pos 0 ecs scs idds idrs d = Some d' ->
+  exists segs, segs_of f pos 0 ecs scs idds idrs = Some segs /\ dget d' c = segs_val segs c (dget d c).
+Proof. exact fmt4_segs_spec. Qed.
+
+(* 16-bit big-endian arrays (end codes, start codes, deltas, range offsets, glyph indices) are read back as written,
+   wherever in the program they stand *)
+Theorem C07_ttf_array_read_back : forall pre l post, forallb is_u16 l = true ->
+  u16s_at (pre ++ flat_map be16 l ++ post) (Z.of_nat (length pre)) (length l) = Some l.
+Proof. exact u16s_at_written. Qed.
+
+(* cid2unichr: what is reported for a glyph is a character the table maps to it; every mapped glyph is reported;
+   a glyph with a single character gets exactly that character *)
+Theorem C07_ttf_inversion_sound : forall d g u,
+  umap_get (invert d) g = Some u -> exists c, In (c, g) d /\ u = [c].
+Proof. exact invert_sound. Qed.
+Theorem C07_ttf_inversion_complete : forall d c g, In (c, g) d -> umap_get (invert d) g <> None.
+Proof. intros d c g. exact (invert_complete d [] c g). Qed.
+Theorem C07_ttf_inversion_unique : forall d c g,
+  In (c, g) d -> (forall c', In (c', g) d -> c' = c) -> umap_get (invert d) g = Some [c].
+Proof. exact invert_unique. Qed.
+
 Print Assumptions C07_segmentation.
 Print Assumptions C07_unknown_byte.
 Print Assumptions C07_identity.
@@ -80,6 +124,13 @@ Print Assumptions C07_bfrange_array.
 Print Assumptions C07_widths.
 Print Assumptions C07_vertical_default.
 Print Assumptions C07_vertical_w2.
+Print Assumptions C07_ttf_delta_segment.
+Print Assumptions C07_ttf_range_segment.
+Print Assumptions C07_ttf_format4.
+Print Assumptions C07_ttf_array_read_back.
+Print Assumptions C07_ttf_inversion_sound.
+Print Assumptions C07_ttf_inversion_complete.
+Print Assumptions C07_ttf_inversion_unique.
 
 (* non-vacuity *)
 Example C07_ex_trie :
@@ -93,4 +144,19 @@ Proof. vm_compute. reflexivity. Qed.
 Example C07_ex_w :
   let f := mkCID false (flat_map encode_entry [WRun 10 [500#1; 600#1]; WRange 11 20 (250#1)]) (1000#1) [] (880#1, (-1000)#1) in
   map (cid_width f) [9; 10; 11; 20; 21] = [1000#1; 500#1; 250#1; 250#1; 1000#1]%Q.
+Proof. vm_compute. reflexivity. Qed.
+
+From Coq Require Import String.
+From PdfV Require Import Base.CV.
+Open Scope string_scope.
+(* a complete font program: directory, cmap with a (3,1) format-4 subtable of two segments (delta; range offset with
+   a missing glyph), read from its bytes: U+0041..0042 -> glyphs 4, 5; U+0061 -> glyph 9, U+0062 has no glyph *)
+Example C07_ex_ttf :
+  let f := hx "00010000 0001 0000 0000 0000  636d6170 00000000 0000001c 00000038
+               0000 0001  0003 0001 0000000c
+               0004 002c 0000  0006 0000 0000 0000  0042 0062 ffff 0000  0041 0061 ffff  ffc3 0000 0001  0000 0004 0000  0009 0000" in
+  match create_unicode_map f with
+  | Some m => map (umap_get m) [4; 5; 9; 0; 7]
+  | None => []
+  end = [Some [65]; Some [66]; Some [97]; Some [65535]; None].
 Proof. vm_compute. reflexivity. Qed.
